@@ -290,4 +290,37 @@ theorem C06_aux_equiv_in_place_nonvacuous :
     Spec.style (events nestedFS 3 (s "main.aux")) = some (s "unsrt") ∧ Spec.data (events nestedFS 3 (s "main.aux")) = some [s "refs"] := by
   decide +kernel
 
+/-! ### the style file is named by the WHOLE style name (seed c06-7: `house.unsrt` must not be looked up as `house.bst`) -/
+
+private theorem bstWord_clean : Gen.osExtsep ∉ Gen.bstWord ∧ Gen.osSep ∉ Gen.bstWord := by decide
+
+/-- The file name `format_from_files` builds from a style name, `style + extsep + 'bst'`:
+(1) different style names designate different files (nothing of the name is dropped, dots included);
+(2) for a style name whose last component is not made of dots only, `os.path.splitext` of the file name
+gives back exactly the style name, so `house.unsrt.bst` belongs to the style `house.unsrt`, not `house`;
+(3) [model wiring] the model's `format_from_files` opens this name and no other to get the style: when
+it holds no text the run is `cannotOpen` of this very name, whatever other files exist. -/
+theorem C06_style_file_name :
+    (∀ a b : Str, bstName a = bstName b → a = b) ∧
+    (∀ style : Str, hasNonDot style = true → splitext (bstName style) = (style, Gen.osExtsep :: Gen.bstWord)) ∧
+    (∀ (files : Files) srcs (style : Str) cites mc alt, files.text (bstName style) = none →
+      formatFromFiles files srcs style cites mc alt = .error (.cannotOpen (bstName style))) := by
+  refine ⟨?_, ?_, ?_⟩
+  · intro a b h
+    simp only [bstName, List.append_assoc] at h
+    exact List.append_cancel_right h
+  · intro style h
+    have := C06_splitext_append style Gen.bstWord bstWord_clean.1 bstWord_clean.2
+    simp only [bstName, List.append_assoc, List.singleton_append]
+    rw [this, if_pos h]
+  · intro files srcs style cites mc alt h
+    have hn : style ++ ".bst".toList = bstName style := C06_model_literals.2.2.1 style
+    unfold formatFromFiles
+    rw [hn, h]
+
+theorem C06_style_file_name_nonvacuous :
+    bstName (s "/D/house.unsrt") = s "/D/house.unsrt.bst" ∧ bstName (s "/D/house") = s "/D/house.bst" ∧
+    hasNonDot (s "/D/house.unsrt") = true ∧
+    splitext (s "/D/house.unsrt.bst") = (s "/D/house.unsrt", s ".bst") := by decide +kernel
+
 end Pybtex.Props
